@@ -361,6 +361,10 @@ def run(tier):
     t1 = time.time()
     nl = run_lint(res, repo)
     na = run_api(res, tier, repo)
+    # R5: a necessary condition of "every enabled protocol round-trips" that the type checker does not see: shared constant tables gated per
+    # protocol must hold the entry of every protocol the configuration enables (the header table, evaluated in each single-protocol build)
+    from . import c07
+    c07.header_table_configs(res, "C20.R5")
     res.floor("C20.R3", 40)
     res.floor("C20.R4", 1)
     res.explanation = ("type checker as oracle: %d feature configurations of a generated client crate exercising every enabled protocol at every enabled layer were "
